@@ -467,6 +467,31 @@ func runC12(cx *Ctx, r *Report) {
 		} else {
 			r.ok("G16-import-key-args-not-crossed", "scan", "", fmt.Sprintf("%d constructor-built keys on the import paths: no two same-typed parameters take each other's namesake field", n))
 		}
+		// G17: an import refuses a state only when it is inadmissible: a supply AT its limit is
+		// within the limit (the handlers admit it), so the import may abort only for amount > limit
+		{
+			var he []Entry
+			for _, e := range ents {
+				if e.Module == "htlc" {
+					he = append(he, e)
+				}
+			}
+			n := cx.strictRejectRule(r, "G17-import-limit-strict", "the import aborts over a supply limit", he,
+				func(w *Walker, fr *Frame, ins ssa.Instruction) bool {
+					if _, isPanic := ins.(*ssa.Panic); isPanic {
+						return true
+					}
+					// (or the refusal is handed up as an error that the import then aborts with)
+					ret, isRet := ins.(*ssa.Return)
+					return isRet && fr.Parent != nil && isFailureReturn(ret)
+				},
+				func(a, b string) bool {
+					return (strings.Contains(a, "Limit") && strings.Contains(b, "Supply")) || (strings.Contains(b, "Limit") && strings.Contains(a, "Supply"))
+				})
+			if n < 3 {
+				r.toolErr("htlc import: %d supply-limit aborts found (≥3 confirmed)", n)
+			}
+		}
 		if n := cx.crossedFieldsRule(r, ents, "G14-import-fields-not-crossed"); n < 5 {
 			r.toolErr("only %d records assembled on import paths were inspected for crossed fields (≥5 confirmed)", n)
 		}
